@@ -1,6 +1,16 @@
-(* eng_crash.ml — model side of engine `crash` (C05, C12): evaluates the extracted crash
-   monitor (Rawdb/Crash.v, proved sound for every crash point and page choice) on the abstract
-   durability trace the instrumented implementation produced. *)
+(* eng_crash.ml — model side of engine `crash` (C05, C12):
+   (a) evaluates the extracted crash monitor (Rawdb/Crash.v, proved sound for every crash point
+       and page choice) on the abstract durability trace the instrumented implementation produced;
+   (b) model-level tie: replays the history of the `I` line on the extracted allocator model
+       (Rawdb/Alloc.v) with the event semantics of Rawdb/AllocEvents.v (`step_events_o`) and prints
+       the model's trace in canonical form; the harness prints the implementation's trace in the
+       same canonical form, so O<>E flags any divergence token for token (data content ignored).
+       Canonical form: ids of an `op` token sorted; maximal runs of `mw:<slot>:z` tokens sorted by
+       slot (retain_regions removes in HashMap order); maximal runs of `pu` tokens sorted by offset
+       (punch_holes punches layout holes in parallel).  The punch oracle of the k-th operation
+       (approx_has_punchable_data's outcome, which depends on byte contents) is read off the
+       implementation's trace: a candidate range is punched iff the implementation punched it;
+       a punch of the implementation outside the model's candidates therefore shows up as O<>E. *)
 open BinNums
 open Datatypes
 open Conv
@@ -26,12 +36,118 @@ let parse_ev (s : string) : cev option =
   | "fr" -> Some CRegionFlushed
   | _ -> None
 
+(* ---- the model's trace ------------------------------------------------------------------------ *)
+let zero_fun : coq_N -> coq_N = fun _ -> N0
+
+let parse_op (s : string) : Alloc.op =
+  let t = S.split_on_char ':' s in
+  let n i = n_of_string (L.nth t i) in
+  let ii i = int_of_string (L.nth t i) in
+  match L.hd t with
+  | "c" -> Alloc.Create (n 1, ii 2 = 1)
+  | "w" -> Alloc.Write (n 1, zero_fun, n 3)
+  | "a" -> Alloc.WriteAt (n 1, zero_fun, n 3, n 4)
+  | "tw" -> Alloc.TruncWrite (n 1, zero_fun, n 3, n 4)
+  | "t" -> Alloc.Truncate (n 1, n 2)
+  | "mv" -> Alloc.Rename (n 1, n 2)
+  | "rm" -> Alloc.Remove (n 1)
+  | "dh" -> Alloc.DropHandle (n 1)
+  | "ret" -> Alloc.Retain (if L.length t > 1 && L.nth t 1 <> "" then L.map n_of_string (S.split_on_char '+' (L.nth t 1)) else [])
+  | "f" -> Alloc.Flush
+  | "fr" -> Alloc.FlushRegion (n 1)
+  | "cp" -> Alloc.Compact
+  | "ro" -> Alloc.Reopen
+  | "ml" -> Alloc.SetMinLen (n 1)
+  | "mr" -> Alloc.SetMinRegions (n 1)
+  | _ -> failwith ("bad op " ^ s)
+
+let si = string_of_n
+
+let show_ev (e : cev) : string =
+  match e with
+  | CSetLen n -> "sl:" ^ si n
+  | COp ids -> "op:" ^ S.concat "+" (L.map si ids)
+  | CEnd -> "end"
+  | CMeta (i, None) -> "mw:" ^ si i ^ ":z"
+  | CMeta (i, Some (((a, l), r), id)) -> Printf.sprintf "mw:%s:%s:%s:%s:%s" (si i) (si a) (si l) (si r) (si id)
+  | CData (off, len, _) -> Printf.sprintf "dw:%s:%s" (si off) (si len)
+  | CPunch (off, len) -> Printf.sprintf "pu:%s:%s" (si off) (si len)
+  | CDataSync -> "ds"
+  | CMetaSync -> "ms"
+  | CPromote -> "pr"
+  | CFlushed -> "fl"
+  | CRegionFlushed -> "fr"
+
+let zkey (s : string) : Z.t = Z.of_string s
+let field (tok : string) (i : int) : string = L.nth (S.split_on_char ':' tok) i
+let is_prefix p s = S.length s >= S.length p && S.sub s 0 (S.length p) = p
+let is_mwz tok = is_prefix "mw:" tok && (match S.split_on_char ':' tok with [_; _; "z"] -> true | _ -> false)
+let is_pu tok = is_prefix "pu:" tok
+
+(* canonical form (the same function as `canon` in harness/src/eng_crash.rs) *)
+let canon (toks : string list) : string list =
+  let norm_op tok =
+    if is_prefix "op:" tok then begin
+      let body = S.sub tok 3 (S.length tok - 3) in
+      if body = "" then tok else
+      let ids = L.sort Z.compare (L.map zkey (S.split_on_char '+' body)) in
+      "op:" ^ S.concat "+" (L.map Z.to_string ids)
+    end else tok in
+  let toks = L.map norm_op toks in
+  let rec runs pred key acc = function
+    | [] -> L.rev acc
+    | x :: _ as l when pred x ->
+        let rec take r = function y :: t when pred y -> take (y :: r) t | rest -> (L.rev r, rest) in
+        let (run, rest) = take [] l in
+        let run = L.stable_sort (fun a b -> Z.compare (key a) (key b)) run in
+        runs pred key (L.rev_append run acc) rest
+    | x :: t -> runs pred key (x :: acc) t in
+  let toks = runs is_mwz (fun t -> zkey (field t 1)) [] toks in
+  runs is_pu (fun t -> zkey (field t 1)) [] toks
+
+(* the punch ranges of each operation of the implementation's trace: segment k starts at the k-th `op` token *)
+let punch_sets (toks : string list) : (string * string) list array =
+  let segs = ref [] and cur = ref None in
+  L.iter (fun tok ->
+    if is_prefix "op:" tok then begin
+      (match !cur with Some c -> segs := L.rev c :: !segs | None -> ());
+      cur := Some []
+    end else if is_pu tok then
+      (match !cur with Some c -> cur := Some ((field tok 1, field tok 2) :: c) | None -> ())) toks;
+  (match !cur with Some c -> segs := L.rev c :: !segs | None -> ());
+  Array.of_list (L.rev !segs)
+
+let model_trace (cfg : string) (ops : string list) (impl : string list) : string list =
+  let min_len = n_of_string (L.nth (S.split_on_char ':' cfg) 1) in
+  let punched = punch_sets impl in
+  let s = ref (Alloc.init min_len) in
+  let out = ref [ "sl:" ^ si min_len ] in
+  let stop = ref false in
+  L.iteri (fun k o ->
+    if not !stop && o <> "" then begin
+      let set = if k < Array.length punched then punched.(k) else [] in
+      let orc off len = L.mem (si off, si len) set in
+      let op = parse_op o in
+      let evs = AllocEvents.step_events_o orc !s op in
+      L.iter (fun e -> out := show_ev e :: !out) evs;
+      let (s', r) = Alloc.step_total !s op in
+      s := s';
+      (match r with Base.Panic -> stop := true | _ -> ())
+    end) ops;
+  L.rev !out
+
 let exec (t : string list) : string list =
-  let rec after_bar = function [] -> [] | "|" :: r -> r | _ :: r -> after_bar r in
-  let toks = after_bar t in
+  let rec split_bar acc = function [] -> (L.rev acc, []) | "|" :: r -> (L.rev acc, r) | x :: r -> split_bar (x :: acc) r in
+  let (hist, toks) = split_bar [] t in
   let evs = L.filter_map parse_ev toks in
+  let tie =
+    match hist with
+    | cfg :: ops ->
+        (try "trace " ^ S.concat " " (canon (model_trace cfg ops toks))
+         with Failure m -> "trace model-failure " ^ m)
+    | [] -> "trace bad-input" in
   match mon_first_bad mon_init evs N0 with
-  | None -> [ "monitor ok" ]
+  | None -> [ "monitor ok"; tie ]
   | Some k ->
       let k = int_of_n k in
       let ev = L.nth (L.filter (fun s -> parse_ev s <> None) toks) k in
@@ -42,4 +158,4 @@ let exec (t : string list) : string list =
         | "ms" :: _ -> "C05:crash-monitor-metadata-synced-before-data"
         | "fl" :: _ -> "C05:crash-monitor-flush-returned-with-unsynced-writes"
         | _ -> "C05:crash-monitor-rejects-event" in
-      [ "monitor ok"; Printf.sprintf "S %s event=%d token=%s" key k ev ]
+      [ "monitor ok"; tie; Printf.sprintf "S %s event=%d token=%s" key k ev ]
